@@ -136,8 +136,14 @@ pub broadcast axiom fn utf8_ends_are_boundaries(t: Seq<char>)
         vstd::utf8::is_char_boundary(vstd::utf8::encode_utf8(t), 0),
         vstd::utf8::is_char_boundary(vstd::utf8::encode_utf8(t), vstd::utf8::encode_utf8(t).len() as int);
 
+// no Rust object is larger than isize::MAX bytes
 pub broadcast axiom fn str_len_fits(s: &str)
-    ensures #[trigger] s.spec_bytes().len() <= usize::MAX;
+    ensures #[trigger] s.spec_bytes().len() <= usize::MAX / 2;
+
+// UTF-8 decoding is a function: the text of a string is determined by its bytes
+pub uninterp spec fn utf8_text(b: Seq<u8>) -> Seq<char>;
+pub broadcast axiom fn utf8_text_of_str(s: &str)
+    ensures #[trigger] utf8_text(s.spec_bytes()) == s@;
 
 
     } // verus!
